@@ -242,8 +242,26 @@ def corrupt(rng, a, v, hashable=False):
     if k == 'union':
         return rng.choice([['object'], ['class', 'bytes']]) if not hashable else ['object']
     if k == 'callable':
-        return rng.choice([['int', 3], ['none'], ['str', [97]], ['list', []],
-                           ['fun', {'params': [['int', False]] * ((len(a[1]) if a[1] is not None else 0) + 1), 'ret': 'int', 'coroutine': False}]])
+        ra = lambda x: 'any' if x[0] == 'any' else x[1]
+
+        def unrelated(name):
+            pool = [c for c in ('str', 'bytes', 'float', 'int') if c != name and not (name == 'bool' and c == 'int')]
+            return rng.choice(pool) if name not in ('any', 'object') else None
+        ps = a[1] if a[1] is not None else []
+        outs = [['int', 3], ['none'], ['str', [97]], ['list', []],
+                ['fun', {'params': [['int', False]] * (len(ps) + 1), 'ret': 'int', 'coroutine': False}]]
+        # same arity, one declared class that cannot stand for the expected one (parameter: unrelated class; result: not a subclass)
+        params = [[ra(x), False] for x in ps]
+        for i, x in enumerate(ps):
+            u = unrelated(ra(x))
+            if u:
+                outs.append(['fun', {'params': params[:i] + [[u, False]] + params[i + 1:], 'ret': ra(a[2]), 'coroutine': False}])
+        u = unrelated(ra(a[2]))
+        if u:
+            outs.append(['fun', {'params': params, 'ret': u, 'coroutine': False}])
+            if ra(a[2]) != 'object':
+                outs.append(['fun', {'params': params, 'ret': 'object', 'coroutine': False}])
+        return rng.choice(outs)
     children = []
     if k == 'tuplevar' and v[0] == 'tuple':
         children = [(a[2], i) for i in range(len(v[1]))]
